@@ -17,6 +17,22 @@ class BytesInputMismatch(Exception):
     pass
 
 
+class IntSub(int):
+    """an int subclass that is neither bool nor CScriptOp"""
+
+
+class BytesSub(bytes):
+    """a bytes subclass other than CScript"""
+
+
+class ByteArraySub(bytearray):
+    pass
+
+
+OTHER_KINDS = {'str': 'ab', 'emptystr': '', 'none': None, 'float': 1.0, 'list': [1], 'tuple': (1,),
+               'dict': {}, 'object': object(), 'complex': 1j, 'set': frozenset()}
+
+
 class OneShot:
     """An iterable whose __iter__ may be called once only (a second walk raises)."""
     def __init__(self, items):
@@ -60,14 +76,20 @@ class C08(Prop):
     theorems = ['BtcVerif.C08.' + t for t in (
         'numDecode_numEncode', 'numEncode_minimal', 'numEncode_numDecode_of_minimal', 'bn2vch_eq_spec',
         'vch2bn_eq_spec', 'bn2vch_defined', 'vch2bn_bn2vch', 'bn2vch_minimal', 'bn2vch_vch2bn_of_minimal',
-        'bn2vch_injective', 'build_eq_spec', 'build_fails_iff', 'add_eq_spec', 'build_minimal_small_int',
+        'bn2vch_injective', 'build_eq_spec', 'build_fails_iff', 'add_eq_spec', 'add_other_typeerror',
+        'build_append', 'build_append_inv', 'build_other_fails', 'build_bool', 'build_minimal_small_int',
         'build_minimal_int', 'build_minimal_data', 'build_data_form', 'build_defined', 'iter_build',
-        'build_iter_build', 'raw_iter_partition', 'raw_iter_concat', 'raw_iter_error', 'raw_iter_eq_spec',
-        'cooked_error_is_invalidscript', 'pred_eq_spec_p2sh', 'pred_eq_spec_witness_program',
-        'pred_eq_spec_witness_version', 'pred_eq_spec_v0_keyhash', 'pred_eq_spec_v0_scripthash',
-        'pred_eq_spec_v0_nested_keyhash', 'pred_eq_spec_v0_nested_scripthash', 'pred_eq_spec_push_only',
-        'pred_eq_spec_canonical_pushes', 'pred_eq_spec_valid', 'pred_eq_spec_unspendable', 'sigops_eq_spec',
-        'sigops_accurate_le_legacy')]
+        'build_iter_build', 'raw_iter_partition', 'raw_iter_concat', 'raw_iter_error', 'raw_iter_error_data',
+        'raw_iter_eq_spec', 'cooked_error_is_invalidscript', 'pred_eq_spec_p2sh',
+        'pred_eq_spec_witness_program', 'pred_eq_spec_witness_version', 'pred_eq_spec_v0_keyhash',
+        'pred_eq_spec_v0_scripthash', 'pred_eq_spec_v0_nested_keyhash', 'pred_eq_spec_v0_nested_scripthash',
+        'pred_eq_spec_push_only', 'pred_eq_spec_canonical_pushes', 'pred_eq_spec_valid',
+        'pred_eq_spec_unspendable', 'sigops_eq_spec', 'sigops_accurate_le_legacy', 'isP2sh_iff',
+        'isWitnessProgram_iff', 'isWitnessV0Keyhash_iff', 'isWitnessV0Scripthash_iff',
+        'isWitnessV0NestedKeyhash_iff', 'isWitnessV0NestedScripthash_iff', 'isUnspendable_iff',
+        'isValid_iff', 'isPushOnly_iff', 'hasCanonicalPushes_iff', 'script_decomposition', 'sigops_single',
+        'sigops_opn_multisig', 'sigops_append', 'sigops_append_general', 'sigops_truncated_tail',
+        'opcode_lookup_in_table')]
     anchors = [(SCRIPT, 'CScriptOp.encode_op_pushdata'), (SCRIPT, 'CScriptOp.encode_op_n'),
                (SCRIPT, 'CScriptOp.decode_op_n'), (SCRIPT, 'CScriptOp.is_small_int'),
                (SCRIPT, 'CScriptOp.__new__'),
@@ -121,6 +143,10 @@ class C08(Prop):
             return int(v)
         if k == 'd:':
             return bytes.fromhex(v)
+        if k == 'b:':
+            return v == '1'
+        if k == 'x:':
+            return OTHER_KINDS[v]
         raise ValueError(t)
 
     def obj_tok(self, o):
@@ -148,7 +174,17 @@ class C08(Prop):
         results must be the same CScript bytes.  Returns (hex, None) or (None, description of the disagreement)."""
         SC = self.SC
         variants = [(name, mkc, objs) for name, mkc in CONTAINERS]
+        SCo = SC.CScriptOp
+        if any(type(o) is int for o in objs):       # int subclasses are ints (bool aside: 0/1 as False/True)
+            variants.append(('list-intsubclass', list, [IntSub(o) if type(o) is int else o for o in objs]))
+            if any(type(o) is int and o in (0, 1) for o in objs):
+                variants.append(('list-bool', list, [bool(o) if type(o) is int and o in (0, 1) else o for o in objs]))
+        if any(type(o) is bool for o in objs):
+            variants.append(('list-bool-as-int', list, [int(o) if type(o) is bool else o for o in objs]))
         if any(isinstance(o, (bytes, bytearray)) for o in objs):
+            for nm, cls in (('nested-CScript', SC.CScript), ('bytes-subclass', BytesSub),
+                            ('bytearray-subclass', ByteArraySub)):
+                variants.append(('list-' + nm, list, [cls(o) if type(o) is bytes else o for o in objs]))
             ba = [bytearray(o) if isinstance(o, bytes) else o for o in objs]
             mixed = [bytearray(o) if isinstance(o, bytes) and i % 2 else o for i, o in enumerate(objs)]
             variants += [('list-bytearray', list, ba), ('genexp-mixed', lambda o: (x for x in o), mixed),
@@ -168,6 +204,15 @@ class C08(Prop):
             return None, '%s-container-mismatch list=%s %s=%s' % (what, first[:80], n, v[:80])
         return first, None
 
+    def iter_err_text(self, e):
+        """family of the exception; for the truncated-push error also the payload bytes it carries in
+        `.data` (what was present of the push: part of "reported, not mis-parsed")"""
+        t = ' err:' + exc_family(e)
+        if isinstance(e, self.SC.CScriptTruncatedPushDataError):
+            d = getattr(e, 'data', None)
+            t += ' trunc=' + (bytes(d).hex() if isinstance(d, (bytes, bytearray)) else 'nodata:%r' % (d,))
+        return t
+
     def cooked_text(self, script, objs_out=None):
         toks, err = [], ''
         it = iter(script)
@@ -177,7 +222,7 @@ class C08(Prop):
             except StopIteration:
                 break
             except Exception as e:  # noqa: BLE001
-                err = ' err:' + exc_family(e)
+                err = self.iter_err_text(e)
                 break
             toks.append(self.obj_tok(o))
             if objs_out is not None:
@@ -388,6 +433,7 @@ class C08(Prop):
 
         # (b) builder: single tokens (every opcode value, every int edge, every length edge), then sequences
         singles = ['o:%d' % n for n in range(0, 0x100)] + ['i:%d' % z for z in edges]
+        singles += ['b:0', 'b:1'] + ['x:' + k for k in sorted(OTHER_KINDS)]
         for t in part(singles):
             yield mk('c08.build', t, tag='build1')
             yield mk('c08.add', rng.randbytes(rng.randrange(0, 3)).hex(), t, tag='add')
@@ -405,6 +451,10 @@ class C08(Prop):
             toks = [self._rand_token(rng, lens, ints, big_ok=(j % 40 == 0)) for _ in range(rng.randrange(1, 9))]
             if j % 10 == 0:     # an opcode token outside the read-back domain (build only)
                 toks.insert(rng.randrange(len(toks) + 1), 'o:%d' % rng.randrange(0, 0x4f))
+            if j % 4 == 1:      # bool elements (ints to Python)
+                toks.insert(rng.randrange(len(toks) + 1), rng.choice(('b:0', 'b:1')))
+            if j % 16 == 3:     # an element of a non-script type at a random position: TypeError
+                toks.insert(rng.randrange(len(toks) + 1), 'x:' + rng.choice(sorted(OTHER_KINDS)))
             yield mk('c08.build', ','.join(toks), tag='buildseq')
 
         # (c) scripts as byte strings
@@ -452,6 +502,8 @@ class C08(Prop):
         # small-integer opcode helpers over their whole domain; mpi2bn on well- and ill-formed MPI strings
         for n in part(range(256)):
             yield mk('c08.opn.dec', n, tag='opn')
+        for n in part([z for z in range(-300, 301) if z != 256]):      # 256 would grow the real table
+            yield mk('c08.opnew', n, tag='opnew')
         for z in part(list(range(-3, 21)) + [p for p in self.pool if abs(p) < 1 << 40]):
             yield mk('c08.opn.enc', z, tag='opn')
         for j in range(share(4000 if big else 400)):
@@ -528,7 +580,13 @@ class C08(Prop):
             def f():
                 raw = bytes.fromhex(a[0])
                 tok = self.tok_obj(a[1])
-                toks = [tok] + ([bytearray(tok)] if isinstance(tok, bytes) else [])
+                toks = [tok]
+                if type(tok) is bytes:
+                    toks += [bytearray(tok), SC.CScript(tok), BytesSub(tok)]
+                if type(tok) is int:
+                    toks += [IntSub(tok)] + ([bool(tok)] if tok in (0, 1) else [])
+                if type(tok) is bool:
+                    toks += [int(tok)]
                 outs = []
                 for base in (SC.CScript(raw), SC.CScript(bytearray(raw))):
                     for t in toks:
@@ -559,7 +617,7 @@ class C08(Prop):
                     except StopIteration:
                         break
                     except Exception as e:  # noqa: BLE001
-                        err = ' err:' + exc_family(e)
+                        err = self.iter_err_text(e)
                         break
                     out.append('(%d,%s,%d)' % (o, '-' if d is None else bytes(d).hex(), idx))
                 return '[' + ''.join(out) + ']' + err
@@ -597,6 +655,11 @@ class C08(Prop):
                 if type(n) is not int:
                     return 'nonint:%r' % (n,)
                 return str(n)
+            return guarded(f)
+        if op == 'c08.opnew':
+            def f():
+                r = SC.CScriptOp(int(a[0]))
+                return str(int(r)) if type(r) is SC.CScriptOp else 'not-a-CScriptOp'
             return guarded(f)
         if op == 'c08.opn.enc':
             def f():
